@@ -286,6 +286,8 @@ def run_fields_and_pdf(ctx: Ctx):
     # (c) sampling from the pdf
     for n in range(ctx.pick(6, 40)):
         spec = rng.choice([('N(0, 1)', (-0.5, 0.5)), ('N(2, 3)', (1.0, 2.5)), ('U(0, 10)', (4.0, 5.0)), ('LN(0, 1)', (0.5, 2.0))])
+        if n == 0:      # a domain far out in the tail of the density (2 % of its mass): the rejection loop needs hundreds of redraws
+            spec = ('N(0, 1)', (2.0, 3.0))
         norm = rng.choice([None, 'minmax', 'linear(2, 1)', 'zscore(1, 2)'])
         try:
             v = Variable('q', distribution=spec[0], domain=spec[1], norm=norm)
